@@ -17,3 +17,34 @@ func verifPoint(name string, arg interface{}) {
 		fn(name, arg)
 	}
 }
+
+// ---- verification harness access (build tag verif only) ----
+
+// VerifNewBlobLeaseManager builds the Azure Blob lease manager with the given container and
+// blob (nil: derive the blob from the container by partition index, as in production).
+func VerifNewBlobLeaseManager(accountName, containerName, masterKey string, container VerifContainer, blob VerifBlob) LeaseManager {
+	m := &azureBlobLeaseManager{accountName: &accountName, containerName: &containerName, masterKey: &masterKey}
+	if container != nil {
+		m.container = container
+	}
+	if blob != nil {
+		m.blob = blob
+	}
+	return m
+}
+
+// exported twins of the unexported mock interfaces
+type VerifContainer = azureContainer
+type VerifBlob = azureBlob
+
+// VerifBuffer gives the harness access to the unexported buffer.
+type VerifBuffer struct{ b ibuffer }
+
+func VerifNewBuffer(max uint32) *VerifBuffer             { return &VerifBuffer{b: newBuffer(max)} }
+func (v *VerifBuffer) Size() uint32                       { return v.b.size() }
+func (v *VerifBuffer) Max() uint32                        { return v.b.max() }
+func (v *VerifBuffer) Top() Operation                     { return v.b.top() }
+func (v *VerifBuffer) Skip() Operation                    { return v.b.skip() }
+func (v *VerifBuffer) Remove() Operation                  { return v.b.remove() }
+func (v *VerifBuffer) Enqueue(op Operation, e bool) error { return v.b.enqueue(op, e) }
+func (v *VerifBuffer) Shutdown()                          { v.b.shutdown() }
